@@ -222,7 +222,7 @@ def rosStep (o : Ops α) (cs : Consts α) (s : SolverCfg α) (p : RosParams α) 
   let alpha0 : α := 1 / (h * p.gamma0)
   let (alpha, lastAlpha) :=
     if s.la.kind.inPlace then (alpha0, r.lastAlpha)
-    else (alpha0 - r.lastAlpha, alpha0 - r.lastAlpha)
+    else (alpha0 - r.lastAlpha, alpha0)   -- `last_alpha` keeps the total shift applied so far
   let jacShift := s.alphaMinusJacobian r.sc.jac alpha
   let (jac, lo, up) := s.factor jacShift r.sc.lower r.sc.upper
   let st := { r.stats with decompositions := r.stats.decompositions + 1 }
